@@ -20,7 +20,7 @@ func C11(r *core.Run) {
 		"(R11.2) every backend slices/seeks/limits with exactly that result and the stored size, returns Range()'s error unchanged and reports the range in Object.Range; " +
 		"(R11.3) Content-Range/Content-Length are written from that range and the object size, after the entity headers and before the body; " +
 		"(R11.4) every parse failure of the Range header returns ErrInvalidRange, which maps to 416; " +
-		"(R11.6) no body-returning read answers before Range() was consulted, and a function that receives a range request hands exactly that request to every callee that takes one (no path serves the whole object, or an unchecked range, for a ranged read). (R11.7) in the fs backends the file positioned at the range start is handed to nothing but the length-limiting wrapper before it becomes the body."
+		"(R11.6) no body-returning read answers before Range() was consulted, and a function that receives a range request hands exactly that request to every callee that takes one (no path serves the whole object, or an unchecked range, for a ranged read). (R11.7) in the fs backends the file positioned at the range start is handed to nothing but the length-limiting wrapper before it becomes the body. (R11.8) with a range present the fs backends return the file only through the length-limiting wrapper."
 	r.NotDecided = "value exactness of start/length for in-range requests, whitespace variants, the multi-range answer (501 today)"
 	ctx := oblig.NewCtx(r.P)
 	rule111(r, ctx)
@@ -30,6 +30,7 @@ func C11(r *core.Run) {
 	rule114(r)
 	rule116(r)
 	rule117(r)
+	rule118(r)
 }
 
 // rule111 checks the result envelope of Range(); returns true if it holds.
@@ -901,4 +902,63 @@ func sameHandle(v, file ssa.Value) bool {
 		}
 	}
 	return false
+}
+
+// rule118 — a ranged read hands out a length-limited body.
+func rule118(r *core.Run) {
+	r.Rule("R11.8", "in the fs backends' GetObject, whenever Range() returned a range (non-nil) the Contents of the returned object is the length-limiting wrapper: assuming every nil test of the range says 'there is one', no successful return is reachable without passing limitReadCloser — a further condition on the range (Start > 0, Length < size) lets some ranges return the whole file under short-range headers")
+	n := 0
+	for _, impl := range []string{"s3afero.(*MultiBucketBackend)", "s3afero.(*SingleBucketBackend)"} {
+		fn := implMethod(r, impl, "GetObject")
+		if fn == nil {
+			continue
+		}
+		name := fname(r, fn)
+		var rangeCall, limit *ssa.Call
+		core.Instrs(fn, func(in ssa.Instruction) {
+			if c, ok := in.(*ssa.Call); ok {
+				switch cn := r.P.CalleeName(c); {
+				case strings.HasSuffix(cn, "ObjectRangeRequest).Range"):
+					rangeCall = c
+				case cn == "s3afero.limitReadCloser" || cn == "io.LimitReader":
+					limit = c
+				}
+			}
+		})
+		if rangeCall == nil || limit == nil {
+			r.Unresolved("R11.8: Range() / limitReadCloser not found in %s", name)
+			continue
+		}
+		var rv ssa.Value
+		for _, u := range *rangeCall.Referrers() {
+			if ex, ok := u.(*ssa.Extract); ok && ex.Index == 0 {
+				rv = ex
+			}
+		}
+		assume := map[ssa.Value]bool{}
+		core.Instrs(fn, func(in ssa.Instruction) {
+			b, ok := in.(*ssa.BinOp)
+			if !ok || (b.Op != token.EQL && b.Op != token.NEQ) {
+				return
+			}
+			if (b.X == rv && core.IsNilConst(b.Y)) || (b.Y == rv && core.IsNilConst(b.X)) {
+				assume[b] = b.Op == token.NEQ
+			}
+		})
+		n++
+		bad := ""
+		for ret, ev := range returnedErrors(fn) {
+			if ev == nil || !definitelyNil(r, core.BlockLocalLoad(ev)) {
+				continue
+			}
+			if core.ReachableFromEntryAssumingAvoiding(ret, assume, func(x ssa.Instruction) bool { return x == ssa.Instruction(limit) }) {
+				bad = pos(r, ret)
+			}
+		}
+		r.Check(bad == "" && len(assume) > 0 && rv != nil, "R11.8", key(name, "every range gets the limiting wrapper"), pos(r, limit), "with a range present, success only through limitReadCloser",
+			"with a range present the method can still return successfully (at "+bad+") without wrapping the file in the length-limiting reader: some ranges are answered with the whole remaining file under the headers of the short range")
+	}
+	if n < 2 {
+		r.Unresolved("R11.8: %d fs GetObject methods examined (expected 2)", n)
+	}
 }
